@@ -54,7 +54,7 @@
 #define MAXCTX 4
 #define MAXREAL 3
 #define MAXWORK 6
-#define NROP 4
+#define NROP 64
 #define LONG_MS 30000
 #define BOUND_MS 4000
 #define MS 1000000ULL
@@ -1114,17 +1114,20 @@ scan_lost(cthr *t)
 }
 
 // Receive until the survey is over.  mixed: aio timeouts shorter than the
-// remaining time as well.  Returns true if it ran to the end of the survey.
+// remaining time as well.  Returns true if it ended with a receive that was
+// pending until it timed out (so everything that arrived before that instant
+// was handed to a receive).
 static bool
 collect(cthr *t, bool mixed, int stop_after)
 {
 	vf_rng *r = &t->rng;
 	int     got = 0;
+	bool    timed_out = false;
 	for (int i = 0; i < 400; i++) {
 		uint64_t now = vf_now_ns(), end = t->t_ret + (uint64_t) t->T * MS + LATE_NS;
 		rcv      rc;
 		int      tmo;
-		if (now >= end) return true;
+		if (now >= end) break;
 		if (mixed && vf_chance(r, 2, 3)) {
 			int left = (int) ((end - now) / MS);
 			if (vf_chance(r, 1, 3) && left > 16) {
@@ -1144,14 +1147,18 @@ collect(cthr *t, bool mixed, int stop_after)
 			continue;
 		}
 		if (rv == NNG_ETIMEDOUT) {
-			if (was_tainted) t->after_taint[2]++;
-			if (!t->tainted || !mixed) return true; // the survey's own deadline
-			if (vf_chance(r, 1, 3)) return false;
+			if (was_tainted) {
+				t->after_taint[2]++;
+			} else {
+				timed_out = true;
+			}
+			if (!t->tainted || !mixed) break; // the survey's own deadline
+			if (vf_chance(r, 1, 3)) break;
 			continue; // what does a receive say after one timed out?
 		}
-		return rv == NNG_ESTATE;
+		break;
 	}
-	return false;
+	return timed_out;
 }
 
 // after the deadline: NNG_ESTATE, whatever arrived in the meantime
